@@ -25,6 +25,11 @@ def cases(tier):
     yield "plain-sibling-not-a-scope", f"let\n  v = {D};\nin\n{{\n  v = \"SIB\";\n  version = v;\n}}\n", "version", None
     yield "chain", f"let\n  v = {D};\n  w = v;\nin\n{{\n  version = w;\n}}\n", "version", None
     yield "chain-3", f"let\n  u = {D};\n  v = u;\n  w = v;\nin\n{{\n  version = w;\n}}\n", "version", None
+    # chains that cross scope levels with shadowing: every hop resolves in the scope of the binding it came from
+    yield "chain-outer-hop-shadowed", f"let\n  a = {D};\n  b = a;\nin\nlet\n  a = \"INNER\";\nin\n{{\n  version = b;\n}}\n", "version", None
+    yield "chain-outer-hop-shadowed-rec", f"let\n  a = {D};\n  b = a;\nin\nrec {{\n  a = \"INNER\";\n  version = b;\n}}\n", "version", None
+    yield "chain-3-levels", f"let\n  a = {D};\n  b = a;\nin\nlet\n  a = \"MID\";\n  c = b;\nin\nlet\n  a = \"INNER\";\n  b = \"B\";\nin\n{{\n  version = c;\n}}\n", "version", None
+    yield "twin-layers", 'let\n  v = "1";\nin\nlet\n  v = "OLD";\nin\n{\n  version = v;\n}\n'.replace('"1"', '"OLD"').replace('v = "OLD";\nin\nlet', 'v = "OUT";\nin\nlet'), "version", None
     yield "lambda-let", f"{{ pkgs }}:\nlet\n  v = {D};\nin\n{{\n  version = v;\n}}\n", "version", None
     yield "lambda-let-call", f"{{ pkgs }}:\nlet\n  v = {D};\nin\npkgs.mkDerivation {{\n  version = v;\n}}\n", "version", None
     yield "nested-path", f"let\n  v = {D};\nin\n{{\n  meta = {{\n    version = v;\n  }};\n}}\n", "meta.version", None
